@@ -1983,7 +1983,10 @@ class MP4AudioSampleEntry(Mp4Atom):
         r = FieldReader(clz.classname(), src, rv)
         r.get(6, 'reserved')  # (8)[6] reserved
         r.read('H', "data_reference_index")
-        r.get(16, 'reserved')  # reserved 8,2,2,4
+        r.get(8, 'reserved')  # reserved 8
+        r.read('H', "channel_count")
+        r.read('H', "sample_size")
+        r.get(4, 'reserved')  # reserved 4
         r.read('H', "timescale")
         r.get(2, 'reserved')  # (16) reserved
         # an ESDBox should follow on from this header
@@ -1994,8 +1997,9 @@ class MP4AudioSampleEntry(Mp4Atom):
         w.write(6, 'reserved', b'')
         w.write('H', 'data_reference_index')
         w.write(8, 'reserved_8', b'')
-        w.write('H', 'reserved_2', 2)
-        w.write('H', 'reserved_2', 16)
+        # a box that was not parsed from a file is stereo, 16 bits per sample
+        w.write('H', 'channel_count', self.__dict__.get('channel_count', 2))
+        w.write('H', 'sample_size', self.__dict__.get('sample_size', 16))
         w.write(4, 'reserved_4', b'')
         w.write('H', 'timescale')
         w.write(2, 'reserved', b'')
